@@ -45,7 +45,7 @@ POOLS = {
     "tuple": [(0, 0), (0, 1), (1, 0), ("a",), (), (None,)],
     "mixed": ["a", 1, (1, 2), None, frozenset({1}), 2.5],
 }
-SEEDS = [0, 1, 7, 2 ** 31, -5, "seed", 12345678901234567890, 3.25, b"xy", 42]
+SEEDS = [0, 1, 7, 2 ** 31, -5, "seed", 12345678901234567890, 3.25, "", 42]      # json-able (replay files)
 XKINDS = ["Random", "module", "subclass", "Random"]
 DRAWS = ["random", "getrandbits", "randrange"]
 
@@ -194,7 +194,7 @@ def _uniform(rng, how):
         return rng.random()
     if how == "getrandbits":
         return rng.getrandbits(64)
-    return rng.randrange(10 ** 12)
+    return rng.randrange(10 ** 18)
 
 
 class Scripted:
@@ -773,7 +773,7 @@ def run_mc(ctx, fams, hooks=None, limit=None):
     total = 0
     for ci, (name, a) in enumerate(fams):
         rng = random.Random(f"{ctx.seed}-{name}")
-        recs = [r for r in res.records if r["cid"] == ci + 1]
+        recs = sorted((r for r in res.records if r["cid"] == ci + 1), key=lambda r: (r["streams"], len(r["hist"]), str(r["hist"])))
         if not recs:
             raise TLCFailure(f"mc family {name}: TLC emitted no behaviour")
         ctx.count(f"mc_emitted[{name}]", len(recs))
@@ -798,7 +798,7 @@ def run_mc(ctx, fams, hooks=None, limit=None):
 def run_scripts(ctx, cases, hooks=None):
     """cases: list of (abstract case with streams and script, oracle entries)."""
     res = run_tlc(ctx.workdir / "script", MODULE, CFG, files={"batch.json": [tlc_abs(a) for a, _ in cases]},
-                  env={"BATCH_FILE": "batch.json", "MODE": "script"})
+                  env={"BATCH_FILE": "batch.json", "MODE": "script"}, coverage=(ctx.tier == "thorough" and len(cases) > 1))
     ctx.add_tlc(res, "script: sampled call sequences (longer chains, several seeds, deferred items), laws as invariants")
     check_design(res, "script")
     by = {r["cid"]: r for r in res.records}
@@ -936,7 +936,11 @@ def replay(ctx, case):
              tag="replay", depth=99, ops=ALLOPS, nsd=len(case["streams"]))
     conc = case["conc"]
     if case["kind"] == "B":
-        run_traces(ctx, [(a, conc, o_run(a, [Lazy(fixed=s) for s in a["streams"]], a["script"]))])
+        # the reference streams are recomputed from the seeds, not trusted from the file
+        lz = reference_streams(conc["sf"], a["K"], conc["seeds"])
+        exp = o_run(a, lz, a["script"])
+        a["streams"] = [list(s.buf) for s in lz]
+        run_traces(ctx, [(a, conc, exp)])
     else:
         run_scripts_with_conc(ctx, a, conc)
     ctx.extra.pop("_drift_seen", None)
